@@ -636,10 +636,66 @@ fn backend_headers(out: &mut Outcome) -> Result<Vec<(String, String)>, Machinery
     Ok(bad)
 }
 
+/// The degenerate input "nothing at all": both clients stay silent (no acknowledgements, their
+/// inbound traffic lost) while the server produces more mutate messages than the 16-bit message
+/// index can name within the acknowledgement timeout; then the links recover.
+fn silent_clients(out: &mut Outcome) -> Vec<(String, String)> {
+    let ticks: u32 = (1 << 16) + 8;
+    let r = guarded(|| -> Result<(), String> {
+        let mut cfg = Cfg::default();
+        cfg.auth = Auth::ProtocolCheck;
+        cfg.clients = vec![1200, 1200];
+        cfg.timeout_ms = 24 * 3_600_000;
+        let mut sim = Sim::new(&cfg);
+        sim.connect(0);
+        sim.connect(1);
+        let mut rig = Rig { sim, sender: Sender::Authorized };
+        for _ in 0..3 {
+            rig.round(true);
+        }
+        rig.sim.apply_op(Op::Spawn(0, (1 << TA) | (1 << TB)));
+        for _ in 0..3 {
+            rig.round(true);
+        }
+        for _ in 0..ticks {
+            rig.sim.apply_op(Op::Mut(0, TA));
+            rig.sim.server_frame(true).map_err(|v| format!("{}: {}", v.oracle, v.detail))?;
+            for c in 0..2 {
+                for q in rig.sim.clients[c].s2c.iter_mut() {
+                    q.clear();
+                }
+            }
+            rig.sim.wire.clear();
+            rig.sim.snaps.clear();
+            rig.sim.vis_snaps.clear();
+            rig.sim.auth_snaps.clear();
+            rig.sim.actions.clear();
+            rig.sim.steps.clear();
+        }
+        rig.healthy()?;
+        let server = rig.sim.server_snap();
+        let view = rig.sim.client_view(0);
+        rig.sim.converged(0, &server, &view, true).map_err(|v| format!("{}: {}", v.oracle, v.detail))?;
+        Ok(())
+    });
+    out.evaluations += 1;
+    out.nontrivial += 1;
+    out.transitions += ticks as u64;
+    out.reports.push(json!({"cell": "c06-silent-clients", "ticks_without_any_client_message": ticks, "exhaustive_within_bound": true}));
+    match r {
+        Ok(Ok(())) => Vec::new(),
+        Ok(Err(e)) => vec![(format!("silence:{ticks}"), format!("after {ticks} ticks without any message from its clients: {e}"))],
+        Err((msg, loc)) => vec![(format!("silence:{ticks}"), format!("the server panicked while its clients sent nothing for {ticks} ticks: {msg} ({})", short_loc(&loc)))],
+    }
+}
+
 pub fn run(tier: Tier, _budget: f64, out: &mut Outcome) -> Result<(), MachineryError> {
     out.rule = RULE.into();
     let q = tier.quick();
     let header_bad = backend_headers(out)?;
+    let t0 = std::time::Instant::now();
+    let silent_bad = silent_clients(out);
+    eprintln!("  C06: silent clients for 65544 ticks ({:.1}s)", t0.elapsed().as_secs_f64());
     let scratch = format!("{}/.target/c06", &check::verif_root());
     let _ = std::fs::create_dir_all(&scratch);
     let mut jobs = Vec::new();
@@ -683,6 +739,21 @@ pub fn run(tier: Tier, _budget: f64, out: &mut Outcome) -> Result<(), MachineryE
             let path = dir.join(format!("{:016x}.json", crate::explore::hash_of(&("backend-header", input))));
             let doc = json!({"property": "C06", "kind": "bytes", "backend_header": true, "input": input,
                 "violation": {"property": "C06", "oracle": "backend-header", "detail": detail, "features": feats}});
+            std::fs::write(&path, serde_json::to_string_pretty(&doc).unwrap()).unwrap();
+            out.new_violations.push(path);
+        }
+    }
+    out.violation_total += silent_bad.len() as u64;
+    if let Some((input, detail)) = silent_bad.first() {
+        let feats: BTreeSet<String> = ["site:silent-clients".to_string()].into();
+        if let Some(k) = findings.findings.iter().find(|f| check::matches_known(f, "C06", "silence", &feats)) {
+            out.known_hits.push(format!("KNOWN-FINDING: property=C06 {}", k.what));
+        } else {
+            let dir = std::path::Path::new(&check::verif_root()).join("replays").join("C06");
+            let _ = std::fs::create_dir_all(&dir);
+            let path = dir.join(format!("{:016x}.json", crate::explore::hash_of(&("silence", input))));
+            let doc = json!({"property": "C06", "kind": "bytes", "silent_clients": true, "input": input,
+                "violation": {"property": "C06", "oracle": "silence", "detail": detail, "features": feats}});
             std::fs::write(&path, serde_json::to_string_pretty(&doc).unwrap()).unwrap();
             out.new_violations.push(path);
         }
@@ -740,6 +811,17 @@ pub fn run(tier: Tier, _budget: f64, out: &mut Outcome) -> Result<(), MachineryE
 }
 
 pub fn replay(doc: &serde_json::Value) -> i32 {
+    if doc["silent_clients"].as_bool().unwrap_or(false) {
+        let mut out = Outcome::new("C06", Tier::Quick, 1);
+        let bad = silent_clients(&mut out);
+        return if bad.is_empty() {
+            println!("replay passes: no violation");
+            0
+        } else {
+            println!("VIOLATION property=C06 replay=<file> oracle=silence :: {} :: {}", bad[0].0, bad[0].1);
+            1
+        };
+    }
     if doc["backend_header"].as_bool().unwrap_or(false) {
         let mut out = Outcome::new("C06", Tier::Quick, 1);
         return match backend_headers(&mut out) {
@@ -789,4 +871,4 @@ pub fn replay(doc: &serde_json::Value) -> i32 {
     }
 }
 
-pub const RULE: &str = "for every client channel (acknowledgements, protocol-hash trigger, plain / mapped client events, client trigger) x sender (connected but unauthorized, authorized, disconnecting in the same step): every byte string up to 1-3 bytes and every message of the varint-boundary grammar (<= 2/3 fields x tails x all truncations) is injected into a real server App that also serves a well-behaved client; per input: update() returns, largest single allocation <= 64 KiB + 64 x message length, worker does not abort; every 2048 inputs and at the end the well-behaved client converges on a fresh mutation; distinct = (configuration, sender, channel, outcome class)";
+pub const RULE: &str = "for every client channel (acknowledgements, protocol-hash trigger, plain / mapped client events, client trigger) x sender (connected but unauthorized, authorized, disconnecting in the same step): every byte string up to 1-3 bytes and every message of the varint-boundary grammar (<= 2/3 fields x tails x all truncations) is injected into a real server App that also serves a well-behaved client; per input: update() returns, largest single allocation <= 64 KiB + 64 x message length, worker does not abort; every 2048 inputs and at the end the well-behaved client converges on a fresh mutation; plus the empty input: no client message at all for 2^16+8 ticks of mutate messages (message index wraps with every entry still registered), then recovery; plus 80 raw header cases against the example backend's socket; distinct = (configuration, sender, channel, outcome class)";
